@@ -237,6 +237,9 @@ def map_equal(a, b, witness=None):
     return a.select(x) == b.select(x)
 
 
+EXTRA_KEYS = {}  # ghost heap keys registered by extensions: key -> range sort
+
+
 class Schema(object):
     def __init__(self):
         self.fields = {}  # field -> type
@@ -351,6 +354,10 @@ class Heap(object):
             return FrameV(RefV(term, None), field)
         if t == "opaque":
             return OpaqueV(RefV(term, None), field)
+        if t == "optfloat":
+            return Opt(self.nonearr(field).select(term), Num(self._arr(field, z3.RealSort()).select(term), False, False))
+        if t == "optdict":
+            return Opt(self.nonearr(field).select(term), ("dictref", self._arr(field, Ref).select(term)))
         if t == "optstr":
             return Opt(self.nonearr(field).select(term), StrV(z3.Select(self._arr(field, Str).arr, term)))
         if t in ("list", "strlist"):
@@ -390,6 +397,21 @@ class Heap(object):
             return
         if t == "str":
             self.maps[field] = self.arr(field).store(term, val.term)
+            return
+        if t == "optfloat":
+            if type(val).__name__ == "NoneV":
+                self.maps[field + "#none"] = self.nonearr(field).store(term, z3.BoolVal(True))
+                return
+            v = Num.lift(val.val if isinstance(val, Opt) else val)
+            self.maps[field + "#none"] = self.nonearr(field).store(term, val.isnone if isinstance(val, Opt) else z3.BoolVal(False))
+            self.maps[field] = self._arr(field, z3.RealSort()).store(term, v.real())
+            return
+        if t == "optdict":
+            if type(val).__name__ == "NoneV":
+                self.maps[field + "#none"] = self.nonearr(field).store(term, z3.BoolVal(True))
+                return
+            self.maps[field + "#none"] = self.nonearr(field).store(term, z3.BoolVal(False))
+            self.maps[field] = self._arr(field, Ref).store(term, val.ref)
             return
         raise ValueError("cannot set field %s of type %s" % (field, t))
 
@@ -465,6 +487,10 @@ class Heap(object):
             return self.maps[key]
         if key.startswith("tmp#"):
             return self.ensure_ghost_bool(key)
+        if key in EXTRA_KEYS:
+            a = ZMap(z3.Const("%s@%s" % (key, self.tag), z3.ArraySort(Ref, EXTRA_KEYS[key])))
+            self.maps[key] = a
+            return a
         if key == "temp#has":
             a = ZMap(z3.Const("%s@%s" % (key, self.tag), z3.ArraySort(Ref, z3.ArraySort(Str, z3.BoolSort()))))
             self.maps[key] = a
